@@ -21,14 +21,14 @@ Section Reach.
   Proof.
     intros [Hi He] L. split.
     - intros i m' H'. destruct (get_impl w i) as [m|] eqn:Hm.
-      + destruct (Hi _ _ Hm) as [E D]. destruct (wle_impls _ _ _ _ L _ _ Hm) as (m2 & H2 & _ & K).
+      + destruct (Hi _ _ Hm) as [E D]. destruct (wle_impls _ _ _ _ _ L _ _ Hm) as (m2 & H2 & _ & K).
         rewrite H' in H2; inversion H2; subst m2. destruct (K I) as (E' & _ & D').
         split; [congruence|apply D'; assumption].
-      + eapply (wle_new_impls _ _ _ _ L); [eassumption|assumption|exact I].
+      + eapply (wle_new_impls _ _ _ _ _ L); [eassumption|assumption|exact I].
     - intros e s' H'. destruct (lookup (w_evs w) e) as [s|] eqn:Hs.
-      + pose proof (He _ _ Hs) as E. destruct (wle_evs _ _ _ _ L _ _ Hs) as (s2 & H2 & K).
+      + pose proof (He _ _ Hs) as E. destruct (wle_evs _ _ _ _ _ L _ _ Hs) as (s2 & H2 & K).
         rewrite H' in H2; inversion H2; subst s2. destruct (K I) as (E' & _). congruence.
-      + eapply (wle_new_evs _ _ _ _ L); [eassumption|assumption|exact I].
+      + eapply (wle_new_evs _ _ _ _ _ L); [eassumption|assumption|exact I].
   Qed.
 
   Lemma healthy_world0 : healthy world0.
@@ -72,7 +72,7 @@ Section Reach.
 
   Lemma stale_in_wle w w' i k : stale_in w i k -> wle w w' -> stale_in w' i k.
   Proof.
-    intros (m & Hm & Hs) L. destruct (wle_impls _ _ _ _ L _ _ Hm) as (m' & Hm' & [_ Hst] & _).
+    intros (m & Hm & Hs) L. destruct (wle_impls _ _ _ _ _ L _ _ Hm) as (m' & Hm' & [_ Hst] & _).
     exists m'; split; [assumption|apply Hst; assumption].
   Qed.
 
